@@ -76,4 +76,12 @@ C12d C12 VMNumber
 C14d C14 PreorderSkip
 C18d C18 StreamEncodeIndent
 C19d C19 dec_float32
+C03e C20 HtmlEscapeRestarts
+C04e C18 EncodeJsonMarshaler
+C08e C08 FieldMapReadOnly
+C11e C11 ParserPoolClean
+C13e C13 validate_utf8
+C18e C18 ParseKeepsOptions
+C19e C19 SkipNumberFast
+C20e C18 dec_generic:unquoteflags
 TAB
